@@ -175,6 +175,11 @@ impl Array6 {
         self.estimator.set_hip_accum(value);
     }
 
+    /// Replaces the estimator state (HIP accumulator, KxQ sums, out-of-order flag)
+    pub(super) fn set_estimator(&mut self, estimator: HipEstimator) {
+        self.estimator = estimator;
+    }
+
     /// Check if the sketch is empty (all slots are zero)
     pub fn is_empty(&self) -> bool {
         self.num_zeros == (1 << self.lg_config_k)
